@@ -531,6 +531,8 @@ def classify(case, clause, message, exc=None):
                 and isinstance(exc, (ZeroDivisionError, ValueError)):
             return "memetic-hillclimb-empty-complement"
         return "exception:%s:%s" % (algo, type(exc).__name__)
+    if clause == "D" and kind == "integer" and fam == "ga" and max(abs(v) for v in ps["lo"] + ps["hi"]) > 2 ** 53:
+        return "integer-operators-float64-rounding-beyond-2^53"
     if clause == "D" and "more than once" in message:
         if algo in ("MemeticMutatorA", "MemeticMutatorB") and _hc_steps(case) > len(ps["labels"]) - ps["k"] \
                 and case["hyper"].get("phc", 0.1) > 0:
@@ -613,7 +615,7 @@ def findings_optimiser(case):
         if miscout is not None:
             sc = _score(prob, soln.soln_decn[0])
             if not (miscout.get("gbest_cv") == sc[0] and miscout.get("gbest_score") == sc[1]):
-                m = "miscout reports (violation, score) = (%r, %r), fresh evaluation gives %r" % (
+                m = "miscout reports (violation, score) = (%s, %s), fresh evaluation gives %r" % (
                     miscout.get("gbest_cv"), miscout.get("gbest_score"), sc)
                 out.append(("T", classify(case, "T", m), m))
     return out
@@ -685,10 +687,25 @@ def findings_operator(case):
     return out
 
 
+_WARM = set()
+
+
 def findings(case):
-    if case.get("fam") == "op":
-        return findings_operator(case)
-    return findings_optimiser(case)
+    """findings of one case.  The first run of a code path in a process imports
+    modules lazily (pymoo, scipy.stats) and some of those imports draw from the
+    global numpy stream *after* it was seeded, so the first run of a case would
+    differ from every later run.  Each (optimiser, problem layout) is therefore
+    executed once, unobserved, before the first observed run."""
+    fn = findings_operator if case.get("fam") == "op" else findings_optimiser
+    ps = case["prob"]
+    key = (case["algo"], case["kind"], ps["nobj"], bool(ps["ineq"]), bool(ps["eq"]), ps.get("elementwise", True))
+    if key not in _WARM:
+        _WARM.add(key)
+        try:
+            fn(dict(case, limit=10))
+        except Exception:
+            pass
+    return fn(case)
 
 
 def run_case(case):
@@ -735,7 +752,7 @@ def _labels(rnd, n, style):
     return rnd.sample(range(-6, 40), n)          # unsorted, with gaps, possibly negative
 
 
-def _constraints(rnd, n, k, cons, members=None):
+def _constraints(rnd, n, k, cons):
     """constraint tables of a subset problem.
     free      : small integer tables and caps, totals tie often (hill-climbers)
     feasible  : every subset satisfies every constraint; inequality values are
@@ -853,7 +870,7 @@ def _sizes(nmax):
 # -- unit 1: sorting ----------------------------------------------------------
 
 def gen_sorting(rnd, tier):
-    reps = 6 if tier == "quick" else 40
+    reps = 12 if tier == "quick" else 120
     nmax = 7 if tier == "quick" else 9
     for n, k in _sizes(nmax):
         for r in range(reps if n <= 7 else 6):
@@ -876,7 +893,7 @@ HC_CONS = ("none", "free10", "free20", "free11", "free22", "free02", "mixed", "i
 
 
 def gen_hillclimb(rnd, tier, algo):
-    reps = 1 if tier == "quick" else 6
+    reps = 3 if tier == "quick" else 40
     nmax = 7 if tier == "quick" else 8
     for n, k in _sizes(nmax):
         for cons in HC_CONS:
@@ -884,6 +901,8 @@ def gen_hillclimb(rnd, tier, algo):
                 ps = subset_spec(rnd, n, k, cons=cons, inter=bool(rnd.random() < 0.5), positive_cwt=True,
                                  vstyle=rnd.choice(["int", "ties", "equal", "dyadic"]),
                                  dtype=rnd.choice(["int64", "int64", "int32"]))
+                for c in ps["ineq"]:
+                    c["raw"] = False          # violation values (>= 0): "total violation" is their plain sum
                 case = dict(fam="hc", algo=algo, kind="subset", prob=ps, seed=rnd.randrange(10 ** 6),
                             miscout=bool(rnd.random() < 0.5), limit=10)
                 if algo == "SDHC":
@@ -907,7 +926,7 @@ def _hyper(rnd, nobj, algo):
 
 
 def gen_ga(rnd, tier, algos, multi):
-    reps = 1 if tier == "quick" else 8
+    reps = 3 if tier == "quick" else 40
     for algo in algos:
         kind = ALGOS[algo][2]
         for r in range(reps):
@@ -949,13 +968,21 @@ def gen_ga(rnd, tier, algos, multi):
             ps["elementwise"] = False
             yield dict(fam="ga", algo=algo, kind=kind, prob=ps, seed=rnd.randrange(10 ** 6),
                        hyper=dict(_hyper(rnd, nobj, algo), pop_size=6), rng="RandomState", miscout=False, branch="vectorised")
+            # integer bounds that binary64 cannot represent (the integer operators compute in floating point)
+            if kind == "integer":
+                ps = vector_spec(rnd, kind, 2, nobj=nobj, trap=True)
+                base = 2 ** 53 + 1 + 2 * rnd.randint(0, 3)
+                ps["lo"], ps["hi"] = [base, base], [base + 4, base + 4]
+                ps["mode"], ps["T"] = "lin", [[1.0, 1.0] for _ in range(nobj)]
+                yield dict(fam="ga", algo=algo, kind=kind, prob=ps, seed=rnd.randrange(10 ** 6),
+                           hyper=dict(ngen=3, pop_size=8), rng="RandomState", miscout=False, branch="huge")
 
 
 MEMETIC = ("MemeticSteepest", "MemeticStochastic", "MemeticMutatorA", "MemeticMutatorB")
 
 
 def gen_memetic(rnd, tier):
-    reps = 1 if tier == "quick" else 6
+    reps = 3 if tier == "quick" else 40
     for algo in MEMETIC:
         for r in range(reps):
             for cons in ("none", "feasible", "mixed"):
@@ -1001,7 +1028,7 @@ def _random_subsets(rnd, labels, k, m):
 
 
 def gen_operators(rnd, tier):
-    reps = 2 if tier == "quick" else 12
+    reps = 6 if tier == "quick" else 60
     for n, k in _sizes(7):
         for r in range(reps):
             ps = subset_spec(rnd, n, k, dtype=rnd.choice(["int64", "int32", "int8"]))
@@ -1092,9 +1119,6 @@ U_GA = "ring[single-objective GA, subset/integer/binary/real: feasible, truthful
 U_NSGA = "ring[NSGA-II subset/integer/binary/real and NSGA-III subset: feasible, truthful, non-dominated]"
 U_MEM = "ring[memetic NSGA-II subset, four mutation schemes: feasible, truthful, non-dominated]"
 U_OPS = "ring[pymoo_addon variation operators keep individuals in the decision space]"
-
-ALGO_DIR = "pybrops/opt/algo/"
-
 
 @unit(P, U_SORT, "R", bounded=True,
       note="bounded: every (n,k) with 1<=k<=n<=7 (thorough n<=9), 8 (thorough 53) seeded problems each: integer/dyadic "
